@@ -142,3 +142,50 @@ def plan_C09(ctx):
 
 
 CLAIMED["C09"] = plan_C09
+
+
+# ------------------------------------------------------------------------------------------------
+# C08
+
+C08_KINDS = ["Normal", "Break", "Continue", "Return", "ReturnValue", "Bind", "BindRecv", "Delay", "Combine", "For", "While", "Loop"]
+
+
+def plan_C08(ctx):
+    budget, depth, nops, nconds = ctx.q((4, 3, 4, 4), (5, 4, 5, 5))
+    lines = ["package c08", ""]
+    n = 0
+    for k in range(5, 12):  # composite roots; leaf roots are covered as sub-terms and by one driver
+        if ctx.thorough:
+            for k2 in range(12):
+                lines.append("func Drive_%s_%s() { Drive(%d, %d, %d, %d, %d, %d) }" % (C08_KINDS[k], C08_KINDS[k2], k, budget, depth, nops, nconds, k2))
+                n += 1
+        else:
+            lines.append("func Drive_%s() { Drive(%d, %d, %d, %d, %d) }" % (C08_KINDS[k], k, budget, depth, nops, nconds))
+            n += 1
+    for k in range(0, 5):
+        lines.append("func Drive_leaf_%s() { Drive(%d, %d, %d, %d, %d) }" % (C08_KINDS[k], k, budget, depth, nops, nconds))
+    with open(os.path.join(ctx.ws, "rt/c08/zz_drivers.go"), "w") as f:
+        f.write("\n".join(lines) + "\n")
+    os.remove(os.path.join(ctx.ws, "rt/c08/drivers_dev.go"))
+    args = engine_common(ctx)
+    args[args.index("-maxpaths") + 1] = str(ctx.q(200000, 2000000))
+    args[args.index("-wall") + 1] = ctx.q("300s", "3000s")
+    res = runner.run_engine(ctx, ["-harness", "verifws/rt/c08"] + args)
+    new, known, replayed, mism, details = process_harness(ctx, res, "rt/c08")
+    extra = {
+        "bounds": {"term_nodes_max": budget, "term_depth_max": depth, "consumer_operations": nops,
+                   "condition_evaluations_that_may_be_true": nconds,
+                   "node_kinds": C08_KINDS + ["For with/without cond and post"],
+                   "outside": "larger terms; Send as the very first operation (C09); terms in which a condition-less loop can spin without yielding (excluded by Assume(terminates)); more than one advance after exhaustion"},
+        "term_shape_x_script_paths": sum(d["completed"] for d in res["drivers"]),
+        "exhaustive": True,
+        "explanation": "term shapes and consumer scripts are enumerated by path forking (Choose), yielded/sent/returned values and condition outcomes are SMT variables; per path one query decides equality of the seq log with the reference interpreter's log",
+        "details": details[:20],
+    }
+    return finish(ctx, res, "model_checking", new, known, replayed, mism, extra,
+                  ["reference interpreter ws/rt/c08/c08.go (ref.exec) is the reading of 'structured loops with break/continue/return'",
+                   "a top-level Break/Continue ends the generator with the zero result (what Start's final continuation does); not constrained by the property text"],
+                  floors={"paths_completed": ctx.q(20000, 200000)})
+
+
+CLAIMED["C08"] = plan_C08
